@@ -237,6 +237,12 @@ def leOpt (a : Option R) (b : R) : Bool :=
   | some x => decide (x ≤ b)
   | none => false
 
+/-- `a <= b` for a left side that may have raised (never evaluated then: `Prim.err`) -/
+def leExc (a : Except Err R) (b : R) : Bool :=
+  match a with
+  | .ok x => decide (x ≤ b)
+  | .error _ => false
+
 /-- l.213-214 / l.310-311 / l.337-338: `(hist[-gens]-hist[-1]) <= tol or hist[-gens] == hist[-1]` -/
 def changeTest (tol : R) (w : Option (R × R)) : Bool :=
   match w with
@@ -296,10 +302,7 @@ def Prim.test (v : View R) : Prim R → Bool
           || decide (absR (last - tgt) ≤ ftol)                            -- l.339
   | .popspread tol => popspreadAll tol v.pop                              -- l.358
   | .gradnorm tol => leOpt (npMax? (v.grad.map absR)) tol                 -- l.380-381
-  | .gradnormP tol n eps =>
-      match gnormOf v n eps with
-      | .ok g => decide (g ≤ tol)                                         -- l.381
-      | .error _ => false
+  | .gradnormP tol n eps => leExc (gnormOf v n eps) tol                   -- l.380-381
   | .evallimits gens evals => geLim v.fcalls evals || geLim v.gens gens   -- l.404
   | .timelimits seconds system s0 s1 s2 =>                                -- l.422-433
       match system with
